@@ -313,6 +313,29 @@ def build_detector(d: dict, dtype, complex_fields: bool, dt: float):
             if key in d:
                 kw[key] = d[key]
         return fdtdx.PoyntingFluxDetector(direction=d["direction"], reduce_volume=d.get("reduce", True), **kw, **common)
+    if k == "closed":
+        kw = {}
+        if "axes" in d:
+            kw["axes"] = tuple(d["axes"])
+        return fdtdx.ClosedSurfacePoyntingFluxDetector(orientation=d.get("orientation", "outward"), **kw, **common)
+    if k in ("phasor_poynting", "closed_phasor"):
+        kw = {}
+        for key in ("scaling_mode", "dft_subsample"):
+            if key in d:
+                kw[key] = d[key]
+        if d.get("window"):
+            kw["apodization"] = build_window(d["window"], dt)
+        common["dtype"] = jnp.complex128 if dtype == jnp.float64 else jnp.complex64
+        common.pop("plot")
+        wcs = tuple(fdtdx.WaveCharacter(wavelength=w) for w in d["wavelengths"])
+        if k == "phasor_poynting":
+            for key in ("keep_all_components", "fixed_propagation_axis"):
+                if key in d:
+                    kw[key] = d[key]
+            return fdtdx.PhasorPoyntingFluxDetector(wave_characters=wcs, direction=d["direction"], **kw, **common)
+        if "axes" in d:
+            kw["axes"] = tuple(d["axes"])
+        return fdtdx.ClosedSurfacePhasorPoyntingFluxDetector(wave_characters=wcs, orientation=d.get("orientation", "outward"), **kw, **common)
     if k == "phasor":
         kw = {}
         for key in ("scaling_mode", "dft_subsample"):
